@@ -48,7 +48,8 @@ def run_case(check, case, keep_events=False):
     if keep_events:
         ctx.keep_events()
     old = signal.signal(signal.SIGALRM, _alarm)
-    signal.alarm(RUN_TIMEOUT_S)
+    limit = int(getattr(check, "RUN_TIMEOUT_S", RUN_TIMEOUT_S))
+    signal.alarm(limit)
     viol = None
     try:
         try:
@@ -56,9 +57,15 @@ def run_case(check, case, keep_events=False):
         except Violation as v:
             viol = v
         except RunTimeout as t:
-            viol = Violation("progress/wall-timeout",
-                             "run did not finish in %d s; stack:\n%s" %
-                             (RUN_TIMEOUT_S, t))
+            if getattr(check, "TIMEOUT_IS_VIOLATION", True):
+                viol = Violation("progress/wall-timeout",
+                                 "run did not finish in %d s; stack:\n%s" %
+                                 (limit, t))
+            else:
+                # the property says nothing about running time and the
+                # workload can legitimately be large: recorded, not alarmed
+                ctx.note("run abandoned after %d s (size, not a verdict)" %
+                         limit)
         except DrawBudgetExceeded as d:
             viol = Violation("progress/draw-budget", str(d))
         except RecursionError as r:
